@@ -23,13 +23,13 @@ CHECKS = {
         'level_text': 'Unbounded deductive proof (Verus) on the verbatim text of digit/digits, digit_hex/digits_hex, digit_octal/digits_octal (the maximal digit run is consumed, the result is exactly its positional value '
                       'when that fits in 64 bits and the literal is rejected otherwise), of TokenStream::{next,read_to_end} (token spans are contiguous, ordered and cover [start, len]), of SourceManager::{add_file, '
                       'get_source_location_from_file_offset} (each file owns [base, base+len] of the location space, the ranges partition it), and of digit_sequence / calculate_float64_from_parts (the value of a floating literal '
-                      'is what the standard library f64 parser returns for the spelling 0<whole digits>.<fraction digits>e<exponent>, i.e. the nearest double of the written decimal, rounded once). '
+                      'is what the standard library f64 parser returns for the spelling 0<whole digits>.<fraction digits>e<exponent>, i.e. the nearest double of the written decimal, rounded once), and of unlex (the returned text is byte for byte the concatenation of the file bytes under each token span - a line splice without its backslash, the lexer-added final end-of-line as a newline - with the lemma that spans tiling a file re-emit exactly that file). '
                       'Kani: the integer suffix table (complete over every 3-byte lookahead); bounded harnesses for the prefix dispatch of literal_int, for literal_float on five token shapes (which digit strings and exponent reach '
                       'calculate_float64_from_parts; f/h suffix narrows that value once to f32), for float_exponent (total on inputs of at most 22 bytes; value on the shape e[+-]DDD), for the span bookkeeping of TokenStream::next through its API with the per-token lexer replaced by an arbitrary-prefix consumer (<= 6 bytes, 3 tokens), and for the location table inverse.',
         'level_note': 'Assumed: `impl FromStr for f64` accepts digits.digits e integer and returns the correctly rounded double (documented by std; IEEE arithmetic is not modelled by Verus), str::parse is a function of the text, '
                       'Display for i64 (vstd leaves its text uninterpreted), Vec::from(array) holds the array elements, String push / push_str (vstd). '
                       'literal_float and float_exponent use slice patterns Verus rejects: their glue is checked by bounded Kani harnesses only (never counted as proved). '
-                      'NOT decided: that the value appears unchanged in the output (formatter), hex/octal prefix dispatch beyond the bounded harness, unlex (iterator adapters). '
+                      'NOT decided: that the value appears unchanged in the output (formatter), hex/octal prefix dispatch beyond the bounded harness. Assumed for unlex: core::str::from_utf8 succeeds exactly on valid UTF-8 and returns the decoded text (vstd utf8 model), get_file_offset_from_source_location (enumerate(); checked by the bounded location-table harness), Token == decides Endline / PhysicalEndline; precondition: every token lies inside one file and its bytes are valid UTF-8. '
                       'Two pointer-range debug_asserts in TokenStream::next are outside the verifier memory model (assumed).',
     },
     'C11': {
